@@ -1,7 +1,9 @@
 package c16
 
 import (
+	"encoding/json"
 	"fmt"
+	"runtime"
 	"sync"
 	"sync/atomic"
 	"testing"
@@ -175,3 +177,123 @@ func TestSlowSubscriber(t *testing.T) {
 }
 
 var _ = model.FunctionTypeDeviceDiagnosisHeartbeatData
+
+// ---------------------------------------------------------------------------------------------
+// TestSeveralSubscribersPerPeer: one remote device may supervise the heartbeat with several of its
+// features (an entity each with a DeviceDiagnosis client). A subscriber is a remote FEATURE: every
+// refresh is notified to each of them, also when they sit behind the same connection.
+func TestSeveralSubscribersPerPeer(t *testing.T) {
+	rapid.Check(t, world.Prop(func(t *rapid.T) {
+		nPeers := rapid.IntRange(1, 2).Draw(t, "peers")
+		nFeat := rapid.IntRange(2, 3).Draw(t, "subscribedFeaturesPerPeer")
+		periods := rapid.IntRange(3, 6).Draw(t, "periods")
+		const timeout = 100 * time.Millisecond
+		base := runtimeGoroutines()
+		w := world.New()
+		ent := w.AddLocalEntity([]uint{1}, model.EntityTypeTypeCEM, timeout)
+		var tree []world.EntSpec
+		for e := 1; e <= nFeat; e++ {
+			tree = append(tree, world.EntSpec{Addr: []uint{uint(e)}, Type: model.EntityTypeTypeCEM, Feats: []world.FeatSpec{
+				{ID: 1, Type: model.FeatureTypeTypeDeviceDiagnosis, Role: model.RoleTypeClient}}})
+		}
+		type key struct {
+			peer int
+			dest string
+		}
+		var mu sync.Mutex
+		got := map[key][]uint64{}
+		var peers []*world.Peer
+		for i := 0; i < nPeers; i++ {
+			i := i
+			p := w.AddPeer(fmt.Sprintf("ski-%d", i+1), fmt.Sprintf("d:_r:peer%d", i+1), tree)
+			p.Cap.SetOnWrite(func(raw []byte) {
+				var s seen
+				d, ok := decodeHeartbeatNotify(raw, &s)
+				if !ok || !s.HasCtr {
+					return
+				}
+				mu.Lock()
+				got[key{i, d}] = append(got[key{i, d}], s.Counter)
+				mu.Unlock()
+			})
+			peers = append(peers, p)
+		}
+		// the server feature comes with the heartbeat function: the heartbeat runs from here on
+		feat := w.AddLocalFeature(ent, world.FeatSpec{Type: model.FeatureTypeTypeDeviceDiagnosis, Role: model.RoleTypeServer,
+			Funcs: []world.FuncSpec{{Fn: fnHeartbeat, Read: true}}})
+		hm := ent.HeartbeatManager()
+		defer func() {
+			func() {
+				defer func() { _ = recover() }()
+				hm.StopHeartbeat()
+			}()
+			for _, p := range peers {
+				p.Cap.SetOnWrite(nil)
+			}
+			world.WaitGoroutines(base, 500*time.Millisecond)
+		}()
+		for _, p := range peers {
+			for e := 1; e <= nFeat; e++ {
+				if !p.CallOK(world.SubscribeCall(p.FA([]uint{uint(e)}, 1), feat.Address(), model.FeatureTypeTypeDeviceDiagnosis)) {
+					t.Fatalf("harness: subscription of %s entity [%d] not granted", p.Ski, e)
+				}
+			}
+		}
+		mu.Lock()
+		got = map[key][]uint64{} // what was notified while the subscriptions were being made is not judged
+		mu.Unlock()
+		time.Sleep(time.Duration(periods)*timeout + timeout/2)
+		hm.StopHeartbeat()
+		time.Sleep(timeout + 20*time.Millisecond) // a refresh in flight
+		mu.Lock()
+		defer mu.Unlock()
+		union := map[uint64]bool{}
+		for _, l := range got {
+			for _, c := range l {
+				union[c] = true
+			}
+		}
+		if len(union) == 0 {
+			world.Record(world.Hash("several-subscribers-discarded", nPeers, nFeat, periods), false, "several-subscribers/discarded-no-refresh")
+			return
+		}
+		for i, p := range peers {
+			for e := 1; e <= nFeat; e++ {
+				d := p.FA([]uint{uint(e)}, 1).String()
+				have := map[uint64]int{}
+				for _, c := range got[key{i, d}] {
+					have[c]++
+				}
+				for c := range union {
+					if have[c] != 1 {
+						world.Fail(t, "C16/notify/subscriber-of-same-device-missed", "%d peers with %d subscribed DeviceDiagnosis client features each; refresh #%d was notified %d times to %s of %s (once to every subscribed feature); notified counters per subscriber: %v", nPeers, nFeat, c, have[c], d, p.Ski, got)
+					}
+				}
+			}
+		}
+		world.Record(world.Hash("several-subscribers", nPeers, nFeat, periods), true, fmt.Sprintf("several-subscribers/features-per-peer-%d", nFeat))
+		if world.WantSample() {
+			world.Sample(map[string]any{"check": "several-subscribers-per-peer", "peers": nPeers, "subscribed_features_per_peer": nFeat, "refreshes_seen": len(union)})
+		}
+	}))
+}
+
+func runtimeGoroutines() int { return runtime.NumGoroutine() }
+
+// decodeHeartbeatNotify returns the destination feature of a heartbeat notification.
+func decodeHeartbeatNotify(raw []byte, s *seen) (dest string, ok bool) {
+	var d model.Datagram
+	if json.Unmarshal(raw, &d) != nil {
+		return "", false
+	}
+	h := d.Datagram.Header
+	if h.CmdClassifier == nil || *h.CmdClassifier != model.CmdClassifierTypeNotify || len(d.Datagram.Payload.Cmd) == 0 || h.AddressDestination == nil {
+		return "", false
+	}
+	data := d.Datagram.Payload.Cmd[0].DeviceDiagnosisHeartbeatData
+	if data == nil {
+		return "", false
+	}
+	decodeData(data, s)
+	return h.AddressDestination.String(), true
+}
